@@ -26,6 +26,7 @@ package main
 
 import (
 	"fmt"
+	"os"
 	"sort"
 	"strconv"
 	"strings"
@@ -689,7 +690,7 @@ func main() {
 		{User: sessrig.UserRWS, KS: false, Kinds: ek, Depth: depth, Faults: nf},
 		{User: sessrig.UserRWS, KS: true, Kinds: ek, Depth: depth, Faults: nf},
 		// the max_sql_execute_time path: a blocked Execute, the executor kills + closes
-		{User: sessrig.UserRW, KS: false, MaxExecMs: 400, Kinds: []string{"hang"}, Depth: r.Pick(2, 3), Faults: 1},
+		{User: sessrig.UserRW, KS: false, MaxExecMs: 400, Kinds: []string{"hang"}, Depth: 3, Faults: 1},
 		{User: sessrig.UserRW, KS: true, MaxExecMs: 400, Kinds: []string{"hang"}, Depth: r.Pick(2, 3), Faults: 1},
 	}
 	if r.Thorough() {
@@ -796,7 +797,7 @@ func main() {
 			break
 		}
 	}
-	if len(classes) > 0 {
+	if len(classes) > 0 && (r.Violations() > 0 || os.Getenv("VERIF_VERBOSE") != "") {
 		fmt.Println("violation classes (count, features, first = shortest example):")
 		for _, k := range sessrig.SortedKeys(classes) {
 			fmt.Printf("  %5d %s\n        e.g. %s\n", classes[k], k, classEx[k])
